@@ -547,6 +547,12 @@ func genJSONName(rng *rand.Rand, used map[string]bool) string {
 			sb.WriteByte(byte('0' + rng.Intn(10)))
 		case 1:
 			sb.WriteByte(byte('0' + rng.Intn(10)))
+		case 2: // header- and path-like names, and the Go identifiers other fields carry
+			sb.WriteString([]string{"-id", ".lat", "-x.y", "-"}[rng.Intn(4)])
+			sb.WriteByte(byte('a' + rng.Intn(26)))
+		case 3:
+			sb.Reset()
+			sb.WriteString("F" + strconv.Itoa(rng.Intn(8)))
 		}
 		s := sb.String()
 		if !used[s] {
@@ -604,6 +610,23 @@ func genStructAt(rng *rand.Rand, cfg TypeGenCfg, depth, nfields int) *GT {
 			f.BQ = "bq" + strconv.Itoa(rng.Intn(10))
 		}
 		g.Fields = append(g.Fields, f)
+	}
+	// a JSON name that is the Go identifier of a sibling is kept only when that sibling
+	// answers to a JSON name of its own (otherwise the two fields would share a name)
+	jsonName := func(f GF) string {
+		n := f.JSON
+		if i := strings.IndexByte(n, ','); i >= 0 {
+			n = n[:i]
+		}
+		return n
+	}
+	for i := range g.Fields {
+		n := jsonName(g.Fields[i])
+		for j := range g.Fields {
+			if i != j && n == g.Fields[j].Name && (jsonName(g.Fields[j]) == "" || g.Fields[j].JSON == "-") {
+				g.Fields[i].JSON = "g" + g.Fields[i].JSON
+			}
+		}
 	}
 	return g
 }
